@@ -214,7 +214,9 @@ func (s *replicaSelector) nextForReplicaReadMixed(req *tikvrpc.Request) {
 	}
 	s.target = strategy.next(s)
 	if s.target != nil {
-		if s.isStaleRead {
+		// Only read requests can be served as stale read or replica read. A write command must never carry these
+		// flags, even if the caller's request has them set.
+		if s.isStaleRead && s.isReadOnlyReq {
 			isStaleRead := true
 			if s.attempts != 1 || (!s.target.store.IsLabelsMatch(s.option.labels) && s.target.peer.Id != s.region.GetLeaderPeerID()) {
 				// retry or target replica's labels does not match and not leader
